@@ -127,6 +127,47 @@ fn scenarios(thorough: bool) -> Vec<Scenario> {
             v.push(s);
         }
     }
+    // handshakes with many outstanding requests: the replies to the first `held` requests of one
+    // peer are held back and handed over together after `silence` rounds in which every other
+    // reply was lost (a retry every 200 ms = 12 rounds); which of the old requests still count
+    // must not depend on anything but the packets
+    for (tp, nspec) in [("1+1", 0usize), ("1+1+1", 0), ("1+1", 1)] {
+        for held in [2i32, 4, 7] {
+            for silence in [60i32, 130, 250, 420] {
+                if !thorough && (silence == 130 || held == 7 && silence != 250) {
+                    continue;
+                }
+                let mut s = base_scn("c17-handshake", tp, 8, 0, false, Pred::RepeatLast, Program::Changing, 1);
+                for k in 0..nspec {
+                    s.specs.push(SpecSpec::new(20 + k as u8, s.peers[0].addr));
+                }
+                for p in s.peers.iter_mut() {
+                    p.timeout_ms = 60_000;
+                    p.notify_ms = 30_000;
+                }
+                s.handshake_phase = true;
+                let (a, b) = (s.peers[0].addr, s.peers[1].addr);
+                let hold_until = 12 * held - 6;
+                for r in 0..hold_until {
+                    s.scripted.push(ScriptedFate { from: b, to: a, round: r, classes: 1 << K_SYNC_REP, fate: Fate::Delay(silence + 5 - r) });
+                }
+                s.outages.push(Outage { from: b, to: a, start: hold_until, len: silence - hold_until, classes: 1 << K_SYNC_REP });
+                if nspec > 0 {
+                    // the same on the spectator's replies to its host
+                    for r in 0..hold_until {
+                        s.scripted.push(ScriptedFate { from: 20, to: a, round: r, classes: 1 << K_SYNC_REP, fate: Fate::Delay(silence + 5 - r) });
+                    }
+                    s.outages.push(Outage { from: 20, to: a, start: hold_until, len: silence - hold_until, classes: 1 << K_SYNC_REP });
+                }
+                s.name = format!("{} spectators={nspec} replies to the first {held} requests held for {silence} rounds", s.name);
+                s.horizon = silence + 8;
+                s.probe = 60;
+                s.max_sync_rounds = silence + 200;
+                s.checks = CK_C02;
+                v.push(s);
+            }
+        }
+    }
     v
 }
 
